@@ -325,6 +325,8 @@ I5_SCRIPTS = {
     "parameter-named-like-a-string-global": "label = 'abc'\ndef twice(label):\n    return label * 2\nmon.write(twice(2.5))\nmon.write(label)\n",
     "recursive-helper-with-a-mixed-signature": "def grow(n, r):\n    if n < 1:\n        return r\n    return grow(n - 1, r * 1.5)\nr0 = 1.5\nmon.write(grow(3, r0))\ndef acc(n, t, s):\n    if n < 1:\n        return t\n    return acc(n - 1, t + s, s)\ns0 = 0.5\nmon.write(acc(3, 0, s0))\n",
     "annotated-parameter-called-with-a-float": "def scale(v: int, n: int):\n    return v * n\ng = 2.5\nmon.write(scale(g, 2))\nmon.write(scale(3, 2))\ndef mean(a: int, b: int):\n    return (a + b) / 2\nmon.write(mean(g, 1))\n",
+    "subscript-of-a-nested-list-or-call-result": "grid = [[0.5, 1.25], [2.5, 4.25]]\nv = grid[1][1]\nmon.write(v)\ndef pair(x):\n    return [x, x * 2.5]\nw = pair(1.5)[1]\nmon.write(w)\ndef corner(g):\n    return g[1][0]\nmon.write(corner(grid))\nrow = grid[0]\nmon.write(row[1])\n",
+    "float-of-a-string-keeps-its-fraction": "raw = '2.75'\nv = float(raw)\nmon.write(v)\nn = int('42')\nmon.write(n)\ndef conv(s):\n    return float(s) * 2\nmon.write(conv('1.25'))\nw = float('3')\nmon.write(w)\nparts = ['0.5', '7']\nmon.write(float(parts[0]) + int(parts[1]))\n",
     "dc-motor-queries-stored-in-variables": "from Reduino.Actuators import DCMotor\nm = DCMotor(2, 3, 5)\nm.set_speed(0.5)\nv = m.get_speed()\nw = m.get_applied_speed()\nhalf = v / 2\nmon.write(v)\nmon.write(w)\nmon.write(half)\n",
     "servo-queries-stored-in-variables": "from Reduino.Actuators import Servo\ns = Servo(9)\ns.write(45.5)\na = s.read()\nu = s.read_us()\nd = a + 0.25\nmon.write(a)\nmon.write(u)\nmon.write(d)\n",
     "queries-returned-from-helpers": "from Reduino.Actuators import DCMotor\nm = DCMotor(2, 3, 5)\ndef speed():\n    return m.get_speed()\ndef twice():\n    s = m.get_applied_speed()\n    return s * 2\nm.set_speed(0.25)\nmon.write(speed())\nmon.write(twice())\n",
